@@ -11,7 +11,8 @@ from .common import *
 ID = "C11"
 RULE = ("(a) EXHAUSTIVE enumeration of small skeletons: every parent x child x grandchild over the 15 constructors "
         "(n in {1,2,3,4,6}, exponential bases {e,2,1}, log bases {e,2}, binary/2-ary parents over all depth<=2 "
-        "children, leaves {x,y,0,1,-1,2}), all unary chains of three parameterised constructors, and all 3-ary "
+        "children, leaves {x,y,0,1,-1,2}), all unary chains of three parameterised constructors, self-similar towers (every "
+        "constructor pair nested 6 and 9 times into each of its free slots), and all 3-ary "
         "sums/products over rule-relevant children (quick tier: a VERIF_SEED-chosen 1/16 slice of the binary part; "
         "thorough: all of it); (b) generated trees/DAGs up to ~400 nodes and redex templates; (c) nested chains up to "
         "depth 150; (d) raw symbolic partials.  The harness drives _take_reduction_step to the fully-reduced flag and "
@@ -54,12 +55,14 @@ def depth2_terms():
 
 ADD_KIDS = [X, ("Constant", 0), ("Constant", 1), ("Negation", X), ("Add", (X, Y)), ("Logarithm", X, math.e),
             ("Logarithm", Y, math.e), ("Logarithm", X, 2), ("Minus", X, Y), ("Constant", 2), ("Negation", ("Negation", Y)),
-            ("Negation", ("Logarithm", Y, math.e)), ("Negation", ("Logarithm", X, 2)), ("Logarithm", Y, 2), ("Constant", -3)]
+            ("Negation", ("Logarithm", Y, math.e)), ("Negation", ("Logarithm", X, 2)), ("Logarithm", Y, 2), ("Constant", -3),
+            ("Logarithm", ("Multiply", (X, Y)), math.e), ("Multiply", (("Constant", 2), X))]
 MUL_KIDS = [X, ("Constant", 0), ("Constant", 1), ("Constant", -1), ("Constant", 2), ("Negation", X), ("Negation", Y),
             ("Reciprocal", X), ("Multiply", (X, Y)), ("NthPower", X, 2), ("NthPower", Y, 2), ("NthPower", X, 3),
             ("NthRoot", X, 2), ("NthRoot", Y, 2), ("NthRoot", X, 3), ("Exponential", X, math.e),
             ("Exponential", Y, math.e), ("Exponential", X, 2), ("Divide", X, Y), ("Reciprocal", ("NthPower", X, 2)),
-            ("Exponential", Y, 2), ("NthRoot", Y, 3), ("Reciprocal", Y)]
+            ("Exponential", Y, 2), ("NthRoot", Y, 3), ("Reciprocal", Y),
+            ("Exponential", ("Add", (X, Y)), math.e), ("NthPower", ("Multiply", (X, Y)), 2), ("NthRoot", ("Multiply", (X, Y)), 2)]
 
 
 def skeleton_blocks():
@@ -94,8 +97,45 @@ def skeleton_blocks():
             for a in ADD_KIDS + MUL_KIDS:
                 yield ("Add", (a,) * k)
                 yield ("Multiply", (a,) * k)
+    def towers():
+        """Self-similar nestings: for every (parent, child, position) constructor pair and every free slot, the
+        pattern is nested into that slot 6 and 9 times.  Blow-ups that need a rule to meet its own output again and
+        again (size or steps multiplying per level) live here."""
+        tags = list(M.ALL_TAGS[2:])
+
+        def mk(t, kids, n, b):
+            if t in M.UNARY:
+                return (t, kids[0])
+            if t in M.PARAM_N:
+                return (t, kids[0], n)
+            if t in M.PARAM_BASE:
+                return (t, kids[0], b)
+            if t in M.BINARY:
+                return (t, kids[0], kids[1])
+            return (t, (kids[0], kids[1]))
+
+        def arity(t):
+            return 2 if (t in M.BINARY or t in M.NARY) else 1
+        for pt in tags:
+            for ct in tags:
+                for pos in range(arity(pt)):
+                    holes = [("child", i) for i in range(arity(ct))] + [("parent", i) for i in range(arity(pt)) if i != pos]
+                    for hole in holes:
+                        for (n, b, depth) in ((2, math.e, 6), (3, 2, 9)):
+                            t = X
+                            for level in range(depth):
+                                ckids = [Y, ("Constant", 2)]
+                                pkids = [X, Y]
+                                if hole[0] == "child":
+                                    ckids[hole[1]] = t
+                                child = mk(ct, ckids, n, b)
+                                pkids[pos] = child
+                                if hole[0] == "parent":
+                                    pkids[hole[1]] = t
+                                t = mk(pt, pkids, n, b)
+                            yield t
     return [("unary-parents", False, unary_parents), ("chains", False, chains), ("ternary", False, ternary),
-            ("binary-parents", True, binary_parents)]
+            ("towers", False, towers), ("binary-parents", True, binary_parents)]
 
 
 def invariant(stats, m, sub, big=False):
@@ -275,9 +315,9 @@ def replay(case):
 def self_test(tier, agg):
     bad = []
     c = agg.get("skeletons", {}).get("counters", {})
-    for b in ("unary-parents", "chains", "ternary", "binary-parents"):
-        if c.get("block:" + b, 0) < 1000:
-            bad.append(f"C11: skeleton block {b} enumerated fewer than 1000 terms")
+    for b in ("unary-parents", "chains", "ternary", "towers", "binary-parents"):
+        if c.get("block:" + b, 0) < (500 if b == "towers" else 1000):
+            bad.append(f"C11: skeleton block {b} enumerated too few terms")
     if agg.get("random", {}).get("counters", {}).get("size>=100", 0) < 20:
         bad.append("C11: fewer than 20 random inputs with >= 100 nodes")
     return bad
